@@ -92,6 +92,10 @@ using FCVec = amc::FixedCapacityVector<int, 4>;
 using FSet = amc::FlatSet<int, Less, A<int>>;
 using SSet = amc::SmallSet<int, 4, Less, A<int>>;             // std::set backing
 using SSetF = amc::SmallSet<int, 4, Less, A<int>, FSet>;      // FlatSet backing
+// the same sets with the dual (const / non-const call operator) comparator, see ops.hpp
+using FSetD = amc::FlatSet<int, DualLess, A<int>>;
+using SSetD = amc::SmallSet<int, 4, DualLess, A<int>>;
+using SSetFD = amc::SmallSet<int, 4, DualLess, A<int>, FSetD>;
 
 // --------------------------------------------------------------------------------------------------------------
 // kinds: what is shared, and the operation menu
@@ -205,6 +209,11 @@ const std::vector<Kind> &kinds() {
       {"smallset_large", build_sset_large<SSet>, set_menu<SSet>(false)},
       {"smallset_flat_inline", build_sset_inline<SSetF>, set_menu<SSetF>(true)},
       {"smallset_flat_large", build_sset_large<SSetF>, set_menu<SSetF>(false)},
+      {"flatset_dual", build_set5<FSetD>, set_menu<FSetD>(false)},
+      {"smallset_dual_inline", build_sset_inline<SSetD>, set_menu<SSetD>(true)},
+      {"smallset_dual_large", build_sset_large<SSetD>, set_menu<SSetD>(false)},
+      {"smallset_flat_dual_inline", build_sset_inline<SSetFD>, set_menu<SSetFD>(true)},
+      {"smallset_flat_dual_large", build_sset_large<SSetFD>, set_menu<SSetFD>(false)},
   };
   return k;
 }
